@@ -1529,7 +1529,13 @@ class IRGenerator:
                             *loc)
                 else:
                     # Referring to a field that's a member of this type
-                    assert type_context is not None
+                    if type_context is None:
+                        # The docstring (of a route) doesn't belong to a type.
+                        raise InvalidSpec(
+                            'Bad doc reference to field %s: outside of a '
+                            'struct or union, the type must be named '
+                            '(type.field).' % quote(val),
+                            *loc)
                     if not any(field.name == val
                                for field in type_context.all_fields):
                         raise InvalidSpec(
